@@ -127,6 +127,19 @@ Proof.
   now rewrite (extract_list_p_eq priv pre umask preserve Hu es (fs_init umask) (all_dirs_wx_init umask Hu)).
 Qed.
 
+(* root passes every check, whatever the umask *)
+Lemma extract_list_p_root pre umask preserve : forall es f,
+  extract_list_p true pre umask preserve f es = extract_list pre umask preserve f es.
+Proof.
+  induction es as [|e es IH]; intro f; simpl; [reflexivity|].
+  unfold extract_entry_p. simpl.
+  destruct (extract_entry pre umask preserve f e); [apply IH|reflexivity].
+Qed.
+
+Lemma unprivileged_same_as_root_any es pre umask preserve :
+  extract_p true pre umask preserve es = extract pre umask preserve es.
+Proof. unfold extract_p, extract. now rewrite extract_list_p_root. Qed.
+
 (* the code before restoreDirModes: a read-only directory cannot be filled by its owner *)
 Definition readonly_dir_witness : tree :=
   Dir 493 0 [(b "ro", Dir 365 0 [(b "f", File (b "x") 292 0)])].
@@ -154,3 +167,106 @@ Proof.
   intros Hw Hu Hd Hwf Hmo Hbe. rewrite (unprivileged_same_as_root false pre umask preserve _ Hw).
   now apply roundtrip_walk_full.
 Qed.
+
+(* ---------- what is on disk when Push returns ---------- *)
+Lemma extract_list_partial_spec priv pre umask preserve : forall es f,
+  extract_list_p priv pre umask preserve f es =
+  match extract_list_partial priv pre umask preserve f es with
+  | (f', None) => Ok f'
+  | (_, Some x) => Err x
+  end.
+Proof.
+  induction es as [|e es IH]; intro f; simpl; [reflexivity|].
+  destruct (extract_entry_p priv pre umask preserve f e); [apply IH|reflexivity].
+Qed.
+
+(* the partial-state function agrees with the extraction: same verdict, and on success the same
+   file system *)
+Theorem extract_partial_spec priv pre umask preserve es :
+  extract_p priv pre umask preserve es =
+  match extract_partial priv pre umask preserve es with
+  | (f, None) => Ok f
+  | (_, Some x) => Err x
+  end.
+Proof.
+  unfold extract_p, extract_partial. rewrite extract_list_partial_spec.
+  destruct (extract_list_partial priv pre umask preserve (fs_init umask) es) as [f [x|]]; reflexivity.
+Qed.
+
+(* whatever happens, what is on disk extends the pre-created directory: bindings are only added *)
+Lemma extract_list_partial_root priv pre umask preserve : forall es f x f',
+  extract_list_partial priv pre umask preserve f es = (f', Some x) ->
+  exists done rest e, es = done ++ e :: rest /\
+    extract_list_p priv pre umask preserve f done = Ok f' /\
+    extract_entry_p priv pre umask preserve f' e = Err x.
+Proof.
+  induction es as [|e es IH]; intros f x f' E; simpl in E; [discriminate|].
+  destruct (extract_entry_p priv pre umask preserve f e) as [f1|x1] eqn:E1.
+  - destruct (IH f1 x f' E) as (done & rest & e0 & -> & Hd & He).
+    exists (e :: done), rest, e0. split; [reflexivity|]. split; [|exact He]. simpl. now rewrite E1.
+  - injection E as <- <-. exists [], es, e. split; [reflexivity|]. split; [reflexivity|exact E1].
+Qed.
+
+Section Residue.
+  Variable digest : Type.
+  Variable H : str -> digest.
+  Variable digest_eqb : digest -> digest -> bool.
+  Variable enc : list entry -> str.
+  Variable dec : str -> option (list entry).
+  Variable gz : str -> str.
+  Variable gunz : str -> option str.
+  Hypothesis digest_eqb_spec : forall a b, digest_eqb a b = true <-> a = b.
+  Hypothesis dec_enc : forall es, dec (enc es) = Some es.
+  Hypothesis gunz_gz : forall s, gunz (gz s) = Some s.
+
+  (* a successful Push leaves exactly what it returns *)
+  Theorem residue_of_success umask preserve d blob f :
+    unpack digest H digest_eqb dec gunz umask preserve d blob = Ok f ->
+    unpack_residue digest H digest_eqb dec gunz umask preserve d blob = f.
+  Proof.
+    unfold unpack, unpack_residue.
+    destruct (negb _); [discriminate|]. destruct (gunz blob) as [tarb|]; [|discriminate].
+    destruct (dec tarb) as [es|]; [|discriminate].
+    rewrite <- (unprivileged_same_as_root_any es (d_title digest d) umask preserve).
+    rewrite (extract_partial_spec true).
+    destruct (extract_partial true (d_title digest d) umask preserve es) as [f0 [x|]]; [discriminate|].
+    simpl. destruct (d_checksum digest d) as [c|]; [destruct (digest_eqb (H tarb) c)|]; congruence.
+  Qed.
+
+  (* "verified on unpack" does not protect the directory: with a wrong recorded tar digest Push
+     fails, and the whole tree of the archive is on disk nevertheless *)
+  Theorem wrong_checksum_residue pre umask preserve repro T c :
+    (preserve = false -> umask <= 511) ->
+    is_dir T = true -> wf_treeb T = true -> modes_okb T = true -> benign_tree pre T = true ->
+    c <> H (enc (tar_entries pre repro T)) ->
+    let d0 := dir_descriptor digest H enc gz pre repro T in
+    let d := mkDesc digest (d_digest digest d0) (d_size digest d0) pre true (Some c) in
+    let blob := dir_blob enc gz pre repro T in
+    unpack digest H digest_eqb dec gunz umask preserve d blob = Err XDigest /\
+    forall p, fs_lookup (unpack_residue digest H digest_eqb dec gunz umask preserve d blob) p
+              = expected umask preserve T p.
+  Proof.
+    intros Hu Hd Hwf Hmo Hbe Hc. simpl.
+    destruct (roundtrip_walk_full pre umask preserve repro T Hu Hd Hwf Hmo Hbe) as (f' & E & L).
+    unfold unpack, unpack_residue, dir_blob. simpl.
+    rewrite (proj2 (digest_eqb_spec _ _) eq_refl), N.eqb_refl. simpl.
+    rewrite gunz_gz, dec_enc, E. split.
+    - destruct (digest_eqb (H (enc (tar_entries pre repro T))) c) eqn:Ec; [|reflexivity].
+      apply digest_eqb_spec in Ec. congruence.
+    - rewrite <- (unprivileged_same_as_root_any (tar_entries pre repro T) pre umask preserve) in E.
+      rewrite (extract_partial_spec true) in E.
+      destruct (extract_partial true pre umask preserve (tar_entries pre repro T)) as [f0 [x|]]; [discriminate|].
+      injection E as ->. exact L.
+  Qed.
+
+  (* a blob that is not the descriptor's is not extracted at all: only the directory exists *)
+  Theorem wrong_blob_residue umask preserve d blob :
+    H blob <> d_digest digest d \/ N.of_nat (length blob) <> d_size digest d ->
+    unpack_residue digest H digest_eqb dec gunz umask preserve d blob = fs_init umask.
+  Proof.
+    intro Hne. unfold unpack_residue.
+    destruct (digest_eqb (H blob) (d_digest digest d)) eqn:E1; simpl; [|reflexivity].
+    destruct (N.of_nat (length blob) =? d_size digest d) eqn:E2; simpl; [|reflexivity].
+    apply digest_eqb_spec in E1. apply N.eqb_eq in E2. destruct Hne; contradiction.
+  Qed.
+End Residue.
